@@ -7,9 +7,11 @@ package bam
 import (
 	"bytes"
 	"encoding/binary"
+	"encoding/hex"
 	"errors"
 	"fmt"
 	"io"
+	"strings"
 	"unsafe"
 
 	"github.com/biogo/hts/bgzf"
@@ -348,7 +350,21 @@ func parseAux(aux []byte) ([]sam.Aux, error) {
 				if j == -1 {
 					return nil, errors.New("bam: invalid zero terminated data: no zero")
 				}
-				aa = append(aa, sam.Aux(aux[i:i+j:i+j]))
+				if t == 'H' {
+					// BAM holds the hex digits, sam.Aux the decoded bytes.
+					if j < 3 {
+						return nil, errors.New("bam: invalid hex string data")
+					}
+					a := make(sam.Aux, 3+hex.DecodedLen(j-3))
+					copy(a, aux[i:i+3])
+					_, err := hex.Decode(a[3:], aux[i+3:i+j])
+					if err != nil {
+						return nil, fmt.Errorf("bam: invalid hex string data: %w", err)
+					}
+					aa = append(aa, a)
+				} else {
+					aa = append(aa, sam.Aux(aux[i:i+j:i+j]))
+				}
 				i += j + 1
 			case 'B':
 				length := binary.LittleEndian.Uint32(aux[i+4 : i+8])
@@ -494,10 +510,17 @@ func newBuffer(br *Reader) (*buffer, error) {
 func buildAux(aa []sam.Aux) (aux []byte) {
 	for _, a := range aa {
 		// TODO: validate each 'a'
-		aux = append(aux, []byte(a)...)
 		switch a.Type() {
-		case 'Z', 'H':
+		case 'H':
+			// sam.Aux holds the decoded bytes, BAM the hex digits.
+			aux = append(aux, []byte(a[:3])...)
+			aux = append(aux, strings.ToUpper(hex.EncodeToString(a[3:]))...)
 			aux = append(aux, 0)
+		case 'Z':
+			aux = append(aux, []byte(a)...)
+			aux = append(aux, 0)
+		default:
+			aux = append(aux, []byte(a)...)
 		}
 	}
 	return
